@@ -313,6 +313,27 @@ def is_attach_call(ctx: Ctx, call, fi) -> bool:
                 return True
     return False
 
+
+def mutated_while_walked(ctx: Ctx, funcs):
+    """[(function, loop, call)] a `for x in COLL:` loop whose body adds to / removes from COLL itself (same text or same origin):
+    removing the current element makes the iterator skip the next one, adding makes it run on."""
+    t = ctx.types
+    out = []
+    for fi in funcs:
+        for lp in t.nodes_in(fi, ast.For):
+            it_txt = norm(lp.iter)
+            if isinstance(lp.iter, ast.Call):
+                continue            # list(x) / tuple(x) / x.copy() / sorted(x): a copy is walked
+            it_ex = set(ctx.expand.expand(lp.iter, fi))
+            for c in [n for n in ast.walk(lp) if isinstance(n, ast.Call) and isinstance(n.func, ast.Attribute) and n.func.attr in ("remove", "pop", "append", "insert", "clear", "extend", "add", "discard", "popitem")]:
+                if norm(c.func.value) == it_txt or (it_ex & set(ctx.expand.expand(c.func.value, fi))):
+                    out.append((fi, lp, c))
+            for d in [n for n in ast.walk(lp) if isinstance(n, ast.Delete)]:
+                for tg in d.targets:
+                    if isinstance(tg, ast.Subscript) and norm(tg.value) == it_txt:
+                        out.append((fi, lp, d))
+    return out
+
 def lost_updates(ctx: Ctx, funcs):
     """[(function, call, property)] in-place changes made to a value that a property just built for the caller (`return
     list(self._x)`, `[.. for ..]`, `self._x.copy()`): the change lands on the throw-away copy, the object keeps what it had."""
